@@ -10,11 +10,8 @@ open Paroxy Paroxy.DB
 
 variable {Tree : Type}
 
-/-- The cleaned text of a file (the raw text when cleaning raises: only used under `CleanOk`). -/
-def cleanD (X : Ext Tree) (raw : Name) : Name :=
-  match X.clean raw with
-  | .ok s => s
-  | .error _ => raw
+/-- The cleaned text of a file: the raw text when cleaning raises (`safe_full_cleaning`). -/
+def cleanD (X : Ext Tree) (raw : Name) : Name := safeClean X raw
 
 /-- The stored source of a file. -/
 def srcOf (X : Ext Tree) (f : Name × Name) : Name := X.prepare (cleanD X f.2)
@@ -30,10 +27,6 @@ def progOf (X : Ext Tree) (f : Name × Name) : Prog :=
 
 def progsOf (X : Ext Tree) (files : List (Name × Name)) : List Prog := files.map (progOf X)
 
-/-- Cleaning raises on no file of the directory. -/
-def CleanOk (X : Ext Tree) (files : List (Name × Name)) : Prop :=
-  ∀ f ∈ files, ∃ s, X.clean f.2 = .ok s
-
 /-- The exception classes assumed of `ast.parse`: instances of `SyntaxError`/`ValueError`, whose class
 name is an identifier (no colon). -/
 def ParseCaught (X : Ext Tree) : Prop :=
@@ -41,6 +34,12 @@ def ParseCaught (X : Ext Tree) : Prop :=
 
 /-- The feature search never raises (finding 17 is an input where it does). -/
 def FeaturesTotal (X : Ext Tree) : Prop := ∀ src t, ∃ ls, X.features src t = .ok ls
+
+/-- The feature search produces no label that already has the `import_internally:` form (spec.md has
+no such feature). -/
+def FeaturesPlain (X : Ext Tree) : Prop :=
+  ∀ src t ls, X.features src t = .ok ls →
+    ∀ l ∈ ls, dropPrefix? (sImport ++ sInternally ++ [cColon]) l.name = none
 
 /-- Every file has its record; invalid and empty files carry the single expected label, and their
 taxa are the taxonomy's answer on that single label. -/
@@ -52,8 +51,8 @@ def Reported (X : Ext Tree) (toTaxa : Name → List Label → List Taxon) (files
       r.labels = [(sAst ++ e.name, [(1, (((srcOf X f).count 10 : Nat) : Int) + 1)])] ∧
       r.taxa = preparedTaxa (toTaxa f.1 [astLabel e.name (srcOf X f)])) ∧
     (∀ t, X.parse (srcOf X f) = .ok t → X.isEmpty t = true →
-      r.labels = [(sAst ++ sEmpty, [(0, 0)])] ∧
-      r.taxa = preparedTaxa (toTaxa f.1 [emptyLabel]))
+      r.labels = [(sAst ++ sEmpty, [(1, (((srcOf X f).count 10 : Nat) : Int) + 1)])] ∧
+      r.taxa = preparedTaxa (toTaxa f.1 [emptyLabel (srcOf X f)]))
 
 /-! ## Executable property predicate for the harness (`c14.spec_check`) -/
 
